@@ -1515,6 +1515,37 @@ let suite_tags t v =
   v.cls <- "D";
   v.nontrivial <- nt >= 2
 
+(* ============================ suite P : Prune (C20) ============================ *)
+let suite_prune t v =
+  let nn = ni t in
+  let segs_of hexs = if hexs = "-" then [] else
+    List.map (fun sg -> List.init (String.length sg) (fun i -> z_of_int (Char.code sg.[i]))) (String.split_on_char '/' (str_of_hex hexs)) in
+  let nodes = times nn (fun () -> let p = next t in let d = nb t in let o = nb t in (p, d, o)) in
+  expect t "=";
+  let nl = ni t in
+  let ileft = List.sort compare (times nl (fun () -> next t)) in
+  let mnodes = List.map (fun (p, d, o) -> { M.pn_path = segs_of p; pn_dir = d; pn_old = o }) nodes in
+  let kept = M.prune mnodes in
+  let mleft = List.sort compare (List.filter_map (fun (p, d, o) ->
+    if List.exists (fun k -> k.M.pn_path = segs_of p) kept then Some p else None) nodes) in
+  if mleft <> ileft then diff v "prune-left";
+  (* oracles on what the implementation removed *)
+  List.iter (fun (p, d, o) ->
+    if not (List.mem p ileft) then begin
+      if not d then oracle v "prune_removed_file" false;
+      if d && not o then oracle v "prune_removed_young_directory" false
+    end) nodes;
+  (* nothing that stays lies inside a directory that went *)
+  List.iter (fun p ->
+    if p <> "-" then begin
+      let s = str_of_hex p in
+      let parent = (match String.rindex_opt s '/' with Some i -> String.sub s 0 i | None -> "") in
+      let parent_hex = if parent = "" then "-" else hex_of_bytes (List.init (String.length parent) (fun i -> z_of_int (Char.code parent.[i]))) in
+      if not (List.mem parent_hex ileft) then oracle v "prune_removed_non_empty_directory" false
+    end) ileft;
+  v.cls <- "D";
+  v.nontrivial <- nn >= 3
+
 (* ============================ dispatch ====================================== *)
 let run_line line =
   let t = mk line in
@@ -1534,6 +1565,7 @@ let run_line line =
       | "W" -> suite_wire t v
       | "SR" -> suite_race t v
       | "G" -> suite_tags t v
+      | "P" -> suite_prune t v
       | "WH" -> suite_wire_http t v
       | "LC" -> suite_log_conc t v
       | s -> raise (Malformed ("unknown suite " ^ s)))
